@@ -5,12 +5,16 @@ From TV Require Import Model.C06_GateTypes Model.C06_HsOrder Spec.C06_HsGrammar 
                        Gen.C06_Gates Proofs.C06_Sound.
 Import ListNotations.
 
-(* ------------------------------------------------------------------ the tie to the source *)
+(* ------------------------------------------------------------------ the ties to the source *)
 Lemma gates_eq : extracted_gates = modelled_gates.
+Proof. vm_compute. reflexivity. Qed.
+Lemma order_checks_eq : extracted_order_checks = modelled_order_checks.
+Proof. vm_compute. reflexivity. Qed.
+Lemma defrag_eq : extracted_defrag = modelled_defrag.
 Proof. vm_compute. reflexivity. Qed.
 
 (* ------------------------------------------------------------------ computed facts *)
-Lemma incl_x_all : forallb (included_x modelled_gates) all_cfgs = true.
+Lemma incl_all : forallb (included modelled_gates) all_cfgs = true.
 Proof. vm_cast_no_check (eq_refl true). Qed.
 
 Lemma incl_order_all : forallb (included_order modelled_gates) all_cfgs = true.
@@ -25,79 +29,53 @@ Proof. vm_cast_no_check (eq_refl true). Qed.
 Lemma reneg_all : forallb (chk_reneg modelled_gates) all_cfgs = true.
 Proof. vm_cast_no_check (eq_refl true). Qed.
 
-Lemma interleave_partial_all :
-  forallb (fun c => negb (c_v13 c) || chk_interleave modelled_gates c true) all_cfgs = true.
+Lemma interleave_all :
+  forallb (fun c => negb (c_v13 c) || chk_interleave modelled_gates c) all_cfgs = true.
 Proof. vm_cast_no_check (eq_refl true). Qed.
 
-Lemma witnesses_all : forallb (witness_ok modelled_gates) deviation_witnesses = true.
+Lemma witnesses_rejected_all :
+  forallb (witness_rejected modelled_gates) deviation_witnesses && ord13_rejected modelled_gates = true.
 Proof. vm_cast_no_check (eq_refl true). Qed.
 
 (* keep the kernel from unfolding the exploration when it compares statements *)
 Strategy 1000 [reach big_fuel check step_t gate_tab grammar deriv ccs_fin_order].
 
 (* ------------------------------------------------------------------ lifted statements *)
-Lemma incl_partial c w :
-  In c all_cfgs ->
-  completes modelled_gates c w = true -> uses_dev modelled_gates c w = false ->
-  allowed c w = true.
+Lemma incl_full c w :
+  In c all_cfgs -> completes modelled_gates c w = true -> allowed c w = true.
 Proof.
-  intros Hc Hd Hu.
-  pose proof incl_x_all as H. rewrite forallb_forall in H. specialize (H c Hc).
-  unfold included_x in H. unfold allowed.
-  apply (included_by_sound (stp_x modelled_gates c) (stp_x_dead modelled_gates c)
+  intros Hc Hd.
+  pose proof incl_all as H. rewrite forallb_forall in H. specialize (H c Hc).
+  unfold included in H. unfold allowed.
+  apply (included_by_sound (stp_of modelled_gates c) (stp_of_dead modelled_gates c)
            (init c) (grammar c) Sigma H w (Sigma_Forall w)).
-  unfold uses_dev in Hu. rewrite (no_dev_same_run modelled_gates c w (init c) Hu).
   unfold completes, run in Hd. rewrite run_is_runs in Hd. exact Hd.
 Qed.
 
-Lemma order_v12 c w :
-  In c all_cfgs -> c_v13 c = false ->
-  completes modelled_gates c w = true -> matches (ccs_fin_order c) w = true.
+Lemma order_full c w :
+  In c all_cfgs -> completes modelled_gates c w = true -> matches (ccs_fin_order c) w = true.
 Proof.
-  intros Hc Hv Hd.
+  intros Hc Hd.
   pose proof incl_order_all as H. rewrite forallb_forall in H. specialize (H c Hc).
-  unfold included_order in H. rewrite Hv in H.
+  unfold included_order in H.
   apply (included_by_sound (stp_of modelled_gates c) (stp_of_dead modelled_gates c)
            (init c) (ccs_fin_order c) Sigma H w (Sigma_Forall w)).
   unfold completes, run in Hd. rewrite run_is_runs in Hd. exact Hd.
 Qed.
 
-Lemma order_v13_partial c w :
-  In c all_cfgs -> c_v13 c = true ->
-  completes modelled_gates c w = true -> uses_dev modelled_gates c w = false ->
-  matches (ccs_fin_order c) w = true.
-Proof.
-  intros Hc Hv Hd Hu.
-  pose proof incl_order_all as H. rewrite forallb_forall in H. specialize (H c Hc).
-  unfold included_order in H. rewrite Hv in H.
-  apply (included_by_sound (stp_x modelled_gates c) (stp_x_dead modelled_gates c)
-           (init c) (ccs_fin_order c) Sigma H w (Sigma_Forall w)).
-  unfold uses_dev in Hu. rewrite (no_dev_same_run modelled_gates c w (init c) Hu).
-  unfold completes, run in Hd. rewrite run_is_runs in Hd. exact Hd.
-Qed.
-
-Lemma order_v13_refuted :
-  In ord13_cfg all_cfgs /\ completes modelled_gates ord13_cfg ord13_witness = true /\ matches (ccs_fin_order ord13_cfg) ord13_witness = false.
-Proof. split; [unfold all_cfgs; in_list|]. vm_compute. split; reflexivity. Qed.
-
-Lemma witnesses_refute :
+Lemma former_rejected :
   Forall (fun x => let '(d, c, w) := x in
-            completes modelled_gates c w = true /\ allowed c w = false /\
-            uses_dev modelled_gates c w = true) deviation_witnesses.
+            completes modelled_gates c w = false /\ allowed c w = false) deviation_witnesses
+  /\ completes modelled_gates ord13_cfg ord13_witness = false.
 Proof.
-  apply Forall_forall. intros [[d c] w] Hin.
-  pose proof witnesses_all as H. rewrite forallb_forall in H. specialize (H _ Hin).
-  unfold witness_ok in H.
-  apply andb_prop in H. destruct H as [H H3]. apply andb_prop in H. destruct H as [H1 H2].
-  split; [exact H1|]. split; [|exact H3].
-  destruct (allowed c w); [discriminate|reflexivity].
-Qed.
-
-Lemma witnesses_in_cfgs : Forall (fun x => In (snd (fst x)) all_cfgs) deviation_witnesses.
-Proof.
-  apply Forall_forall. intros x Hx. unfold deviation_witnesses in Hx. cbn [In] in Hx.
-  repeat (destruct Hx as [Hx|Hx]; [subst x; cbn [fst snd]; unfold all_cfgs; in_list|]).
-  contradiction.
+  pose proof witnesses_rejected_all as H. apply andb_prop in H. destruct H as [H1 H2].
+  split.
+  - apply Forall_forall. intros [[d c] w] Hin.
+    rewrite forallb_forall in H1. specialize (H1 _ Hin). unfold witness_rejected in H1.
+    apply andb_prop in H1. destruct H1 as [A B].
+    split; [destruct (completes modelled_gates c w)|destruct (allowed c w)]; try discriminate; reflexivity.
+  - unfold ord13_rejected in H2. destruct (completes modelled_gates ord13_cfg ord13_witness);
+      [discriminate|reflexivity].
 Qed.
 
 Lemma noapp c s e :
@@ -143,28 +121,17 @@ Proof.
     apply Z.eqb_eq in H3. subst. reflexivity.
 Qed.
 
-Lemma interleave_partial c s e p :
+Lemma interleave_full c s e p :
   In c all_cfgs -> c_v13 c = true ->
   handshaking s = true -> v13_at c (pc s) = true -> buf s = BPartial ->
-  In p non_hs_payloads -> p <> PCcs true ->
+  In p non_hs_payloads ->
   is_abort (fst (step modelled_gates c s (e, p))) = true.
 Proof.
-  intros Hc Hv Hh Hv13 Hb Hp Hne.
-  pose proof interleave_partial_all as H. rewrite forallb_forall in H. specialize (H c Hc).
+  intros Hc Hv Hh Hv13 Hb Hp.
+  pose proof interleave_all as H. rewrite forallb_forall in H. specialize (H c Hc).
   rewrite Hv in H. cbn [negb orb] in H.
   unfold chk_interleave in H. rewrite forallb_forall in H. specialize (H s (all_st_complete s)).
   rewrite Hh, Hv13, Hb in H. cbn [negb orb andb bufk_eqb] in H.
   rewrite forallb_forall in H. specialize (H e (all_epoch_complete e)).
-  rewrite forallb_forall in H. specialize (H p Hp).
-  apply orb_true_iff in H. destruct H as [H|H]; [|exact H].
-  exfalso. apply Hne. cbn [andb] in H. destruct p as [| | | |[|]| | |]; try discriminate. reflexivity.
-Qed.
-
-Lemma interleave_refuted :
-  exists c s, In c all_cfgs /\ c_v13 c = true /\ handshaking s = true /\
-              v13_at c (pc s) = true /\ buf s = BPartial /\
-              is_abort (fst (step modelled_gates c s (E0, PCcs true))) = false.
-Proof.
-  exists (cl13 KCert13 false false), (mk_st C13_CRCert BPartial false E1).
-  split; [unfold all_cfgs; in_list|]. vm_compute. repeat split; reflexivity.
+  rewrite forallb_forall in H. exact (H p Hp).
 Qed.
